@@ -486,6 +486,14 @@ func (m *monC01) Final(f *Flow) {
 	if f.QStartStep == 0 {
 		return
 	}
+	// a publish call does not wait on the network: it has returned
+	for _, pb := range f.Pubs {
+		if pb.Gen == w.Gen && pb.Invoke != 0 && pb.Ret == 0 {
+			w.Violate("C01", "liveness", fmt.Sprintf("q%d-call-never-returned%s", pb.QoS, f.stuckWhere()),
+				"publish #%d (%s) was invoked at step %d and had not returned when the quiescence phase ended after %v; task parked at %q", pb.Idx, pb.Topic, pb.Invoke, f.S.Now()-f.QStartTime, f.S.FinalParks[pb.Task])
+			return
+		}
+	}
 	// every accepted message reached the broker at least once
 	seen := map[string]int{}
 	for _, d := range w.Broker.Deliv {
